@@ -47,7 +47,10 @@ func (g *Gen) fnPick(pool []string, k int) []string {
 	return p[:k]
 }
 
-func fnSummary(clauses [][]string, dirs []int) string {
+// FnScanStages are the plan stages that print the key pattern of the index they use.
+var FnScanStages = []string{"IXSCAN", "IXSCAN", "IXSCAN", "COUNT_SCAN", "DISTINCT_SCAN", "EXPRESS_IXSCAN"}
+
+func fnSummary(clauses [][]string, dirs []int, stage func() string) string {
 	var cs []string
 	d := 0
 	for _, keys := range clauses {
@@ -56,7 +59,7 @@ func fnSummary(clauses [][]string, dirs []int) string {
 			ks = append(ks, fmt.Sprintf("%s: %d", k, dirs[d%len(dirs)]))
 			d++
 		}
-		cs = append(cs, "IXSCAN { "+strings.Join(ks, ", ")+" }")
+		cs = append(cs, stage()+" { "+strings.Join(ks, ", ")+" }")
 	}
 	return strings.Join(cs, ", ")
 }
@@ -155,7 +158,9 @@ func (g *Gen) FnLine(pool []string, verb, db, coll string, carrier string) *FnCa
 		case len(clauses) == 0 || g.chance(0.2):
 			fc.Summary = g.pick("COLLSCAN", "IDHACK", "EOF")
 		default:
-			fc.Summary = fnSummary(clauses, []int{1, -1, 1})
+			// one scan stage per summary (a summary with several clauses repeats it, as an OR of index scans does)
+			st := FnScanStages[g.R.Intn(len(FnScanStages))]
+			fc.Summary = fnSummary(clauses, []int{1, -1, 1}, func() string { return st })
 			fc.SumKeys = clauses
 		}
 		attr.Set("planSummary", StrN(fc.Summary))
